@@ -190,8 +190,16 @@ def concatR (R : Rat → Rat) (mm : List String → String) (seqs : List MSeq) (
 
 /-! ### merge_sequences -/
 
+/-- Python `max(iterable)` over floats, started at the first element (exact comparison, no rounding) -/
+def ratMax (a : Rat) (l : List Rat) : Rat := l.foldl (fun acc x => if acc < x then x else acc) a
+
+/-- after the `MergeFrom` loop: `if sequences: cat_seq.total_time = max(seq.total_time for seq in sequences)` -/
 def mergeR (mm : List String → String) (seqs : List MSeq) : MSeq :=
-  finishCat mm seqs (seqs.foldl mergeFromM emptyM)
+  let cat := seqs.foldl mergeFromM emptyM
+  let cat' : MSeq := match seqs with
+    | [] => cat
+    | s :: r => { cat with ns := { cat.ns with totalTime := ratMax s.ns.totalTime (r.map (·.ns.totalTime)) } }
+  finishCat mm seqs cat'
 
 /-! ### adjust_notesequence_times -/
 
@@ -303,30 +311,48 @@ def flatList : List Sec → List Int
   | s :: r => s.flat ++ flatList r
 end
 
+/-- decimal tokens, parsed on `List Char` (kernel-reducible, unlike `String.toInt?`) -/
+def natOfChars : List Char → Option Nat
+  | [] => none
+  | cs => cs.foldl (fun acc c => match acc with
+      | none => none
+      | some n => if '0' ≤ c ∧ c ≤ '9' then some (10 * n + (c.toNat - 48)) else none) (some 0)
+
+def intOfTok (s : String) : Option Int :=
+  match s.toList with
+  | '-' :: r => (natOfChars r).map (fun n => -(n : Int))
+  | r => (natOfChars r).map (fun n => (n : Int))
+
+def natOfTok (s : String) : Option Nat := natOfChars s.toList
+
 mutual
-/-- wire tokens `S id` | `G n sec*n num_times`; `fuel` bounds the nesting depth -/
+/-- wire tokens `S id` | `G n sec*n num_times`; every call spends one unit of `fuel`
+(structural recursion; `2 * tokens + 2` units always suffice) -/
 def pSec : Nat → List String → Option (Sec × List String)
   | 0, _ => none
   | fuel + 1, toks =>
     match toks with
-    | "S" :: i :: rest => i.toInt?.map (fun i => (Sec.id i, rest))
+    | "S" :: i :: rest => (intOfTok i).map (fun i => (Sec.id i, rest))
     | "G" :: n :: rest =>
-      match n.toNat? with
+      match natOfTok n with
       | none => none
       | some n =>
         match pSecs fuel n rest with
-        | some (ss, k :: rest') => k.toInt?.map (fun k => (Sec.group ss k, rest'))
+        | some (ss, k :: rest') => (intOfTok k).map (fun k => (Sec.group ss k, rest'))
         | _ => none
     | _ => none
+termination_by structural fuel => fuel
 def pSecs : Nat → Nat → List String → Option (List Sec × List String)
-  | _, 0, toks => some ([], toks)
-  | fuel, n + 1, toks =>
+  | 0, _, _ => none
+  | _ + 1, 0, toks => some ([], toks)
+  | fuel + 1, n + 1, toks =>
     match pSec fuel toks with
     | none => none
     | some (s, rest) =>
       match pSecs fuel n rest with
       | none => none
       | some (ss, rest') => some (s :: ss, rest')
+termination_by structural fuel => fuel
 end
 
 /-- the forest `sequence.section_groups` -/
@@ -334,7 +360,7 @@ def pGroups : Nat → List String → Option (List Sec)
   | _, [] => some []
   | 0, _ :: _ => none
   | k + 1, toks =>
-    match pSec toks.length toks with
+    match pSec (2 * toks.length + 2) toks with
     | none => none
     | some (g, rest) => (pGroups k rest).map (g :: ·)
 
